@@ -458,7 +458,10 @@ Definition parse_type_assertion (fuel : nat) (left : tree) (st : pstate) : res (
              end in
   let '(ok, st4) := assert_token T_RPAREN st3 in
   let st5 := if ok then advance_wss st4 else st4 in
-  ret (Some (TAssert left t)) (pop_wss st5).
+  match t with
+  | None => ret None (pop_wss st5)            (* if t == nil { return nil } *)
+  | Some _ => ret (Some (TAssert left t)) (pop_wss st5)
+  end.
 
 (* parseExpr: the prefix switch *)
 Definition parse_prefix (fuel : nat) (st : pstate) : res (option tree) :=
